@@ -68,6 +68,14 @@ func (u *Universe) MAC(name string) net.HardwareAddr {
 		if err == nil && k > 100 && k <= 200 { // m<100+K>: same low four bytes as m<K>, other vendor prefix
 			return net.HardwareAddr{0x06, 0x11, 0x00, 0x00, 0x01, byte(k - 100)}
 		}
+		// hardware addresses that are not Ethernet addresses: they can reach the session only through its API
+		// (Capture, Release, SetDHCPv4IPOffer, DHCPv4Update), never through a parsed frame
+		if err == nil && k == 201 { // EUI-64 (8 bytes)
+			return net.HardwareAddr{0x02, 0x00, 0x00, 0xff, 0xfe, 0x00, 0x01, 0x07}
+		}
+		if err == nil && k == 202 { // empty address
+			return net.HardwareAddr{}
+		}
 	}
 	panic("unknown mac name " + name)
 }
@@ -87,6 +95,12 @@ func (u *Universe) MACName(mac net.HardwareAddr) string {
 		if mac[0] == 6 && mac[1] == 0x11 && mac[2] == 0 && mac[3] == 0 && mac[4] == 1 && mac[5] > 0 && mac[5] <= 100 {
 			return "m" + strconv.Itoa(100+int(mac[5]))
 		}
+	}
+	if len(mac) == 8 && string(mac) == string(net.HardwareAddr{0x02, 0x00, 0x00, 0xff, 0xfe, 0x00, 0x01, 0x07}) {
+		return "m201"
+	}
+	if len(mac) == 0 {
+		return "m202"
 	}
 	return "mac:" + mac.String()
 }
